@@ -29,6 +29,8 @@ def shards(tier, seed):
     out = [("curve_%s" % c.name, dict(kind="order", cname=c.name)) for c in lib.ALL_CURVES]
     for i in range(2 if q else 8):
         out.append(("rand_orders_%d" % i, dict(kind="rand", count=25 if q else 150)))
+    out.append(("pyopt_order_NIST521p", dict(kind="order", cname="NIST521p", _pyopt=True)))
+    out.append(("pyopt_rand", dict(kind="rand", count=10, _pyopt=True)))
     top = 1 << (11 if q else 12)
     parts = 8 if q else 16
     for i in range(parts):
